@@ -645,6 +645,7 @@ CMR_ERROR CMRbalancedTest(CMR* cmr, CMR_CHRMAT* matrix, bool* pisBalanced, CMR_S
 
   if (!CMRchrmatIsTernary(cmr, matrix, psubmatrix))
   {
+    *pisBalanced = false;
     if (stats)
     {
       stats->totalCount++;
